@@ -9,6 +9,7 @@ mod c06;
 mod c07api;
 mod c08;
 mod c09;
+mod c09gossip;
 mod c10;
 mod c10net;
 mod c11;
@@ -229,7 +230,7 @@ fn main() {
         "C05" => run_parts("C05", vec![part(c05::C05::new(), "", (2500, 40000)), part(apinode::ApiNode::new("C05"), "node", (60, 1500))], &args),
         "C06" => run(c06::C06::new(), &args, 250, 4000),
         "C08" => run(c08::C08::new(), &args, 700, 20000),
-        "C09" => run(c09::C09::new(), &args, 400, 8000),
+        "C09" => run_parts("C09", vec![part(c09::C09::new(), "", (400, 8000)), part(c09gossip::C09Gossip::new(), "gossip", (400, 8000))], &args),
         "C10" => run2(c10::C10::new(), c10net::C10Net::new(), "connection", &args, (300, 60), (5000, 1500)),
         "C11" => run(c11::C11::new(), &args, 600, 10000),
         "C12" => run_parts("C12", vec![part(c12::C12::new(), "", (600, 10000)), part(apinode::ApiNode::new("C12"), "node", (60, 1500))], &args),
